@@ -490,21 +490,21 @@ func genPatch(t *rapid.T) interface{} {
 		if rapid.IntRange(0, 6).Draw(t, "junkEntry") == 0 {
 			ks = append(ks, "not-an-object")
 		}
-		return map[string]interface{}{"action": "add-public-keys", "publicKeys": ks}
+		return map[string]interface{}{"action": "add-public-keys", "publicKeys": withStrays(t, ks)}
 	case 3:
 		n := rapid.IntRange(1, 3).Draw(t, "services")
 		var ss []interface{}
 		for i := 0; i < n; i++ {
 			ss = append(ss, nearMissService(t))
 		}
-		return map[string]interface{}{"action": "add-services", "services": ss}
+		return map[string]interface{}{"action": "add-services", "services": withStrays(t, ss)}
 	case 4:
 		doc := map[string]interface{}{}
 		if rapid.Bool().Draw(t, "rk") {
-			doc["publicKeys"] = []interface{}{nearMissKey(t), nearMissKey(t)}
+			doc["publicKeys"] = withStrays(t, []interface{}{nearMissKey(t), nearMissKey(t)})
 		}
 		if rapid.Bool().Draw(t, "rs") {
-			doc["services"] = []interface{}{nearMissService(t)}
+			doc["services"] = withStrays(t, []interface{}{nearMissService(t)})
 		}
 		if rapid.IntRange(0, 5).Draw(t, "extraMember") == 0 {
 			doc["alsoKnownAs"] = []interface{}{"x"}
@@ -524,6 +524,19 @@ func genPatch(t *rapid.T) interface{} {
 		}
 		return map[string]interface{}{"action": "ietf-json-patch", "patches": ops}
 	}
+}
+
+// withStrays inserts, one time in four, a list member that is not an entry (string, number, null, list) at a drawn
+// position: the validator ignores such members, the entries around them are still entries of the delta.
+func withStrays(t *rapid.T, l []interface{}) []interface{} {
+	if rapid.IntRange(0, 3).Draw(t, "strayMember") != 0 {
+		return l
+	}
+	at := rapid.IntRange(0, len(l)).Draw(t, "strayAt")
+	stray := rapid.SampledFrom([]interface{}{"stray", float64(7), nil, []interface{}{}, true}).Draw(t, "stray")
+	out := append([]interface{}{}, l[:at]...)
+	out = append(out, stray)
+	return append(out, l[at:]...)
 }
 
 func classOf(c *Case) []string {
@@ -552,7 +565,7 @@ func classOf(c *Case) []string {
 }
 
 func TestAcceptedDeltas(t *testing.T) {
-	ev.Rule(chkRules, "rapid: deltas of 1-3 patches drawn from: valid patches; add-public-keys / add-services / replace with near-miss entries (id length 0/1/49/50/51/200 and illegal characters, duplicate ids, type x purposes mismatches, 0/1/2 key-material members and foreign members, JWK missing crv/kty/x, service type 0/1/30/31/90, endpoint as string / array with the bad URI at every index / object / null / number); remove patches with ill-typed id lists; json-patch lists over the six RFC 6902 operations (and unknown / ill-typed ops) with path / from / value present, absent, ill-typed, pointing at, under and next to /publicKey and /service, array indices -2..len+1 and '-', null values, test without value; under a drawn set of enabled actions; oracle (i): ValidateDelta accepts => the independent rule predicate finds no violated rule; accept rate is reported; non-trivial = an accepted delta with a near-miss or json-patch patch")
+	ev.Rule(chkRules, "rapid: deltas of 1-3 patches drawn from: valid patches; add-public-keys / add-services / replace with near-miss entries (id length 0/1/49/50/51/200 and illegal characters, duplicate ids, type x purposes mismatches, 0/1/2 key-material members and foreign members, JWK missing crv/kty/x, service type 0/1/30/31/90, endpoint as string / array with the bad URI at every index / object / null / number; entry lists with a stray non-object member at a drawn position); remove patches with ill-typed id lists; json-patch lists over the six RFC 6902 operations (and unknown / ill-typed ops) with path / from / value present, absent, ill-typed, pointing at, under and next to /publicKey and /service, array indices -2..len+1 and '-', null values, test without value; under a drawn set of enabled actions; oracle (i): ValidateDelta accepts => the independent rule predicate finds no violated rule; accept rate is reported; non-trivial = an accepted delta with a near-miss or json-patch patch")
 	ev.Rule(chkApply, "every accepted delta of the cases above is applied with the real composer to a reachable document (result of 0-4 valid patches on {}) or to one of 5 hand-made small documents (arrays, nested objects, null members, sections present / null): oracle (ii) a document or an error, never a panic (caught in-process), a hang (20 s watchdog) or a fatal crash (in-flight journal confirmed in a fresh process); oracle (iii) after an accepted json-patch-only delta the publicKey and service members are deep-equal to before; non-trivial = accepted delta containing a json-patch with an array index, a from, or a null / absent value")
 	ev.Rapid(t, chkRules, 3000, 40000, func(t *rapid.T) {
 		c := &Case{Enabled: wire.AllPatches}
